@@ -252,18 +252,26 @@ def Atom.neg : Atom → Atom
   | .num x => .num (xneg x)
   | .ts t v => .ts t (v.map xneg)
 
+/-- a tuple side is optional: `none` is Python's `None`, a missing (unbounded) side of a bound pair -/
 inductive Val where
   | atom (a : Atom)
-  | tup (xs : List Atom)
+  | tup (xs : List (Option Atom))
   | list (xs : List Atom)
 deriving DecidableEq, Repr
 
-/-- a tuple is `(-val[1], -val[0])` (stated for every length as reverse-and-negate; only
-    2-tuples are ever stored), a list `[-x for x in val]`, anything else `-val` -/
+/-- a tuple is `(-val[1] if val[1] is not None else None, -val[0] if val[0] is not None else None)`
+    (stated for every length as reverse-and-negate, a missing side staying missing; only 2-tuples are
+    ever stored), a list `[-x for x in val]`, anything else `-val` -/
 def Val.neg : Val → Val
   | .atom a => .atom a.neg
-  | .tup xs => .tup (xs.reverse.map Atom.neg)
+  | .tup xs => .tup (xs.reverse.map (Option.map Atom.neg))
   | .list xs => .list (xs.map Atom.neg)
+
+/-- the value map of `__setitem__` / `__getitem__` under a negative sign BEFORE the repair of F56:
+    `(-val[1], -val[0])` applies unary minus to `None`; `none` = `TypeError` -/
+def Val.negLegacy : Val → Option Val
+  | .tup xs => if xs.all Option.isSome then some (Val.neg (.tup xs)) else none
+  | v => some v.neg
 
 def Val.ok : Val → Bool
   | .tup xs => xs.length == 2
